@@ -471,6 +471,10 @@ def divDischarge : List (Nat × Reason) := [
   (1483042758, .cfgOK),      -- splitPeriod: / (periodDur*1000)          (CfgOK.periods, div_periodDur)
   (1678097487, .cfgOK),
   (294771169, .cfgOK),       -- splitPeriod: 3600 / *PeriodsPerHour
+  (2434614241, .cfgOK),      -- LiveMPD (publishTime of a period removal): / periodDurMS = 3600 / periods * 1000, after splitPeriod has divided by the same value
+  (2008790857, .cfgOK),      -- LiveMPD: 3600 / *PeriodsPerHour                (CfgOK.periods)
+  (691815320, .localGuard),  -- prevEntryStartMS: / uint64(se.mediaTimescale)    (after `se.mediaTimescale == 0` returns)
+  (1976667801, .localGuard), -- prevEntryStartMS: % len(rep.Segments)            (after `len(rep.Segments) == 0` returns)
   (3283230032, .assetLoad),  -- splitPeriod: / segDur
   (1962945513, .assetLoad),  -- splitPeriod: % SegmentDurMS
   (237660192, .assetLoad),   -- writeChunkedSegment: / MediaTimescale
